@@ -50,14 +50,15 @@ PANEL_OPS = ['k0', 'k0', 'kG0', 'kM', 'kA', 'cA', 'kT', 'fint', 'fext', 'lb', 'l
              'static_nl', 'uvw', 'strain', 'stress', 'plot', 'save_load', 'get_size', 'set_cores', 'k0_c', 'kG0_c',
              'mod_lb', 'mod_freq', 'mod_static', 'lb_c']
 ASM_OPS = ['k0', 'k0', 'kG0', 'kM', 'kT', 'fint', 'fext', 'k0_conn', 'uvw', 'strain', 'stress', 'set_cores', 'get_size',
-           'mod_lb', 'mod_freq', 'mod_static', 'panel_k0', 'plot']
+           'mod_lb', 'mod_freq', 'mod_static', 'panel_k0', 'plot', 'an_static', 'an_static_nl', 'panel_kM', 'panel_fext']
 BAY_OPS = ['k0', 'k0', 'kG0', 'kM', 'kA', 'cA', 'fext', 'uvw_skin', 'uvw_stiffener', 'get_size', 'set_cores',
-           'mod_lb', 'mod_freq', 'mod_static', 'plot_skin']
+           'mod_lb', 'mod_freq', 'mod_static', 'plot_skin', 'save_load', 'stiff_k0', 'plot_stiffener']
 SHELL_OPS = ['k0', 'k0', 'fext', 'kT', 'fint', 'lb', 'static', 'static_nl', 'uvw', 'strain', 'stress', 'get_size',
              'set_cores', 'set_ni_cores', 'save_load', 'plot', 'eigen']
 
 
-SOLVER_OPS = ('lb', 'lb_dense', 'lb_c', 'freq', 'freq_dense', 'static', 'static_nl', 'mod_lb', 'mod_freq', 'mod_static', 'eigen')
+SOLVER_OPS = ('lb', 'lb_dense', 'lb_c', 'freq', 'freq_dense', 'static', 'static_nl', 'mod_lb', 'mod_freq', 'mod_static', 'eigen',
+              'an_static', 'an_static_nl')
 
 
 def gen_flags(rng, p=0.2):
@@ -107,7 +108,11 @@ def gen_ops(rng, menu, nmin=5, nmax=30, heavy=()):
               'nl': rng.random() < 0.5, 'k': rng.choice([1, 2, 3, 5, 8, 16]),
               'vec': rng.choice(['w', 'u', 'exx', 'Nxx', 'kxy']), 'atype': rng.choice([4, 4, 3]),
               'si': rng.randrange(3), 'region': rng.choice(['flange', 'base']), 'pidx': rng.randrange(4)}
-        if name in SOLVER_OPS and rng.random() < 0.2:
+        if name not in ('set_cores', 'set_ni_cores', 'save_load', 'get_size') and rng.random() < 0.07:
+            # transient allocation failure: the j-th call of an internal building block (laminate construction,
+            # connection constants/kernels, matrix symmetrisation, linear-matrix set-up) raises MemoryError
+            op['fault'] = {'seam': 'alloc', 'call': rng.choice([1, 1, 2, 3, 5, 8]), 'kind': 'MemoryError'}
+        elif name in SOLVER_OPS and rng.random() < 0.2:
             # fault plan: the j-th solver call (eigsh/eigs/spsolve) made by this operation fails
             op['fault'] = {'call': rng.choice([1, 1, 2, 3, 5]),
                            'kind': rng.choice(['ArpackNoConvergence', 'ArpackError', 'SingularFactor', 'MemoryError'])}
@@ -268,6 +273,7 @@ def apply_panel_def(p, d):
     p.num_eigvalues = d['num_eigvalues']
     p.out_num_cores = 1
     p.analysis.initialInc = 0.5
+    p.analysis.minInc = 0.05
     p.analysis.maxNumIter = 8
     return p
 
@@ -373,6 +379,7 @@ def build(kind, d):
             cc.m0, cc.n0, cc.funcnum = 2, 2, 2
             cc.c0 = np.ascontiguousarray(rng.standard_normal(8) * 0.05)
         cc.analysis.initialInc = 0.5
+        cc.analysis.minInc = 0.05
         cc.analysis.maxNumIter = 8
         return cc
     raise HarnessError(kind)
@@ -647,6 +654,24 @@ def run_asm_op(asm, op, env, d):
     if name == 'panel_k0':
         p = asm.panels[op['pidx'] % len(asm.panels)]
         return p.calc_k0(silent=True)
+    if name == 'panel_kM':
+        p = asm.panels[op['pidx'] % len(asm.panels)]
+        return p.calc_kM(silent=True)
+    if name == 'panel_fext':
+        p = asm.panels[op['pidx'] % len(asm.panels)]
+        return p.calc_fext(silent=True)
+    if name in ('an_static', 'an_static_nl'):
+        # one Analysis object per assembly, shared by all analyses of the history (as a user script would keep it)
+        from compmech.analysis import Analysis
+        an = getattr(asm, '_verif_analysis', None)
+        if an is None:
+            an = Analysis(asm.calc_fext, asm.calc_k0, asm.calc_fint, asm.calc_kT)
+            an.initialInc = 0.5
+            an.minInc = 0.05
+            an.maxNumIter = 6
+            asm._verif_analysis = an
+        incs, cs = an.static(NLgeom=(name == 'an_static_nl'), silent=True)
+        return (list(incs), list(cs))
     if name in ('mod_lb', 'mod_freq', 'mod_static'):
         K = asm.calc_k0(silent=True)
         KG = asm.calc_kG0(silent=True) if name == 'mod_lb' else None
@@ -699,6 +724,21 @@ def run_bay_op(bay, op, env, d):
     if name == 'set_cores':
         bay.out_num_cores = op['k']
         return 'set'
+    if name == 'stiff_k0':
+        nst = len(d['stiffeners'])
+        if not nst:
+            return 'no stiffener'
+        st = bay.stiffeners[op['si'] % nst]
+        return st.calc_k0(size=bay_size(d), row0=0, col0=0, silent=True, finalize=False)
+    if name == 'plot_stiffener':
+        nst = len(d['stiffeners'])
+        if not nst:
+            return 'no stiffener'
+        import matplotlib.pyplot as plt
+        bay.plot_stiffener(env.c(op['ci'], size), op['si'] % nst, region=op['region'], vec='w', gridx=4, gridy=4,
+                           filename='stf.png', dpi=30)
+        plt.close('all')
+        return 'plotted'
     if name in ('mod_lb', 'mod_freq', 'mod_static'):
         K = bay.calc_k0(silent=True)
         KG = bay.calc_kG0(silent=True) if name == 'mod_lb' else None
@@ -783,8 +823,12 @@ def op_key(kind, op):
         parts.append(op['vec'])
     if name == 'uvw_stiffener':
         parts += ['s%d' % op['si'], op['region']]
-    if name == 'panel_k0':
+    if name in ('panel_k0', 'panel_kM', 'panel_fext'):
         parts.append('p%d' % op['pidx'])
+    if name in ('stiff_k0',):
+        parts.append('s%d' % op['si'])
+    if name == 'plot_stiffener':
+        parts += ['c%d' % op['ci'], 's%d' % op['si'], op['region']]
     if name in ('set_cores', 'set_ni_cores'):
         parts.append(str(op['k']))
     return '/'.join(parts)
@@ -802,6 +846,7 @@ class KeySeam(object):
         self.key = ''
         self.n = 0
         self.nsolver = 0
+        self.nalloc = 0
         self.fault = None
         self.fired = None
         self.patched = []
@@ -810,12 +855,27 @@ class KeySeam(object):
         self.key = key
         self.n = 0
         self.nsolver = 0
+        self.nalloc = 0
         self.fault = fault
         self.fired = None
 
+    def maybe_fail_alloc(self):
+        self.nalloc += 1
+        if self.fault and self.fault.get('seam') == 'alloc' and self.nalloc == self.fault['call']:
+            self.fired = 'alloc_MemoryError'
+            raise MemoryError('injected allocation failure')
+
+    def wrap_alloc(self, real):
+        seam = self
+
+        def wrapper(*a, **kw):
+            seam.maybe_fail_alloc()
+            return real(*a, **kw)
+        return wrapper
+
     def maybe_fail(self):
         self.nsolver += 1
-        if self.fault and self.nsolver == self.fault['call']:
+        if self.fault and self.fault.get('seam', 'solver') == 'solver' and self.nsolver == self.fault['call']:
             from .eig import make_fault
             self.fired = self.fault['kind']
             raise make_fault(self.fault['kind'])
@@ -861,6 +921,29 @@ class KeySeam(object):
         import compmech.sparse as msp
         self.patched.append((msp, 'spsolve', msp.spsolve))
         msp.spsolve = self.wrap_plain(msp.spsolve)
+        # allocation-failure seams: internal building blocks reached through module attributes
+        import compmech.composite.laminate as mlam
+        import compmech.panel.connections as mconn
+        import compmech.panel.assembly.assembly as masm
+        import compmech.stiffpanelbay.stiffpanelbay as mbay
+        import compmech.conecyl.modelDB as mccdb
+        targets = [(mlam, 'read_stack'), (mconn, 'calc_kt_kr'), (m1, 'finalize_symmetric_matrix'),
+                   (masm, 'finalize_symmetric_matrix'), (mbay, 'finalize_symmetric_matrix'), (m2, 'make_symmetric'),
+                   (mccdb, 'get_linear_matrices'), (m1, 'make_skew_symmetric')]
+        for sub in ('kCSSycte', 'kCSSxcte', 'kCBFycte', 'kCBFxcte', 'kCSB'):
+            mod = getattr(mconn, sub, None)
+            if mod is not None:
+                for fn in dir(mod):
+                    if fn.startswith('fk'):
+                        targets.append((mod, fn))
+        for mod, name in targets:
+            if hasattr(mod, name):
+                real = getattr(mod, name)
+                try:
+                    setattr(mod, name, self.wrap_alloc(real))
+                except (AttributeError, TypeError):
+                    continue
+                self.patched.append((mod, name, real))
 
     def remove(self):
         for mod, name, real in self.patched:
@@ -877,6 +960,8 @@ def outcome_of(kind, obj, op, env, d, seam, key, fault=None):
         raise
     except Exception as e:
         return ('raises', type(e).__name__, repr(e)[:160])
+    finally:
+        seam.fault = None      # faults are armed for the duration of the operation only
     return ('value', canon(val), None)
 
 
@@ -888,6 +973,11 @@ def save_load(kind, obj):
         return load('subject')
     if kind == 'shell':
         from compmech.conecyl.conecyl import load
+        obj.name = 'subject'
+        obj.save()
+        return load('subject')
+    if kind == 'bay':
+        from compmech.stiffpanelbay.stiffpanelbay import load
         obj.name = 'subject'
         obj.save()
         return load('subject')
@@ -917,7 +1007,7 @@ def execute(scen):
             name = op['op']
             res['steps'] += 1
             if name == 'save_load':
-                if kind in ('panel', 'shell'):
+                if kind in ('panel', 'shell', 'bay'):
                     try:
                         subject = save_load(kind, subject)
                         bump(res['probes'], 'save_load_roundtrip')
@@ -940,7 +1030,7 @@ def execute(scen):
             if seam.fired:
                 # the operation was interrupted by an injected solver failure: its own outcome is not compared,
                 # but everything the object returns afterwards still has to equal the fresh-object outcome
-                bump(res['faults'], 'solver_failure_%s_in_%s' % (seam.fired, name))
+                bump(res['faults'], '%s_%s_in_%s' % ('failure' if seam.fired.startswith('alloc') else 'solver_failure', seam.fired, name))
                 log.add(idx, key, 'interrupted', out[0])
                 if out[0] == 'value':
                     bump(res['probes'], 'injected_failure_absorbed_by_fallback')
@@ -1017,6 +1107,8 @@ def known_id_for(kind, key, out, ref, prev_ops, d):
     """Narrow matchers of the committed known findings (see KNOWN_FINDINGS.json)."""
     name = key.split('/')[0]
     prev_ops = [o.rstrip('!') for o in prev_ops]
+    if kind == 'bay' and out[0] == 'raises' and out[1] == 'AssertionError' and (name == 'stiff_k0' or 'stiff_k0' in prev_ops):
+        return 'C20-stiffener-direct-call'
     if kind == 'shell' and d.get('Fc') is None and (name in ('lb', 'eigen') or 'lb' in prev_ops or 'eigen' in prev_ops):
         return 'C20-conecyl-lb-default-load'
     return None
